@@ -81,7 +81,13 @@ static size_t FloorPowerOfTwo (const size_t value) {
 static size_t BinaryFirst(const T *restrict array, const T value, const Range range) {
 	size_t start = range.start, end = range.end - 1;
 	if (range.start >= range.end) return range.start;
-	while (start < end) {
+	while (start < end)
+#if defined ECHSE_VERIF
+	__CPROVER_assigns(start, end)
+	__CPROVER_loop_invariant(range.start <= start && start <= end && end <= range.end - 1)
+	__CPROVER_decreases(end - start)
+#endif	/* ECHSE_VERIF */
+	{
 		size_t mid = start + (end - start)/2;
 		if (compare(array[mid], value))
 			start = mid + 1;
@@ -96,7 +102,13 @@ static size_t BinaryFirst(const T *restrict array, const T value, const Range ra
 static size_t BinaryLast(const T *restrict array, const T value, const Range range) {
 	size_t start = range.start, end = range.end - 1;
 	if (range.start >= range.end) return range.end;
-	while (start < end) {
+	while (start < end)
+#if defined ECHSE_VERIF
+	__CPROVER_assigns(start, end)
+	__CPROVER_loop_invariant(range.start <= start && start <= end && end <= range.end - 1)
+	__CPROVER_decreases(end - start)
+#endif	/* ECHSE_VERIF */
+	{
 		size_t mid = start + (end - start)/2;
 		if (!compare(value, array[mid]))
 			start = mid + 1;
